@@ -726,6 +726,10 @@ class Ev:
                     # evaluated once, when the class body runs: every instance sees the same object
                     self.cache[ck] = self.eval(f, {"__qual__": f"{owner}.<classbody>"}, omod)
                 cv = self.cache[ck]
+                if isinstance(cv, LazyPropV):
+                    if cv.slot not in obj.attrs:
+                        obj.attrs[cv.slot] = self.call(cv.fget, [obj], {}, node, mod)
+                    return obj.attrs[cv.slot]                             # whatever was cached under that slot first
                 if isinstance(cv, PropertyV):
                     return self.call(cv.fget, [obj], {}, node, mod)       # name = property(getter): a property like any other
                 if isinstance(cv, StaticV):
@@ -4043,6 +4047,33 @@ def lib_property(ev, a, k, n, mod):
 
 lib_property.kw = {"fget", "doc"}
 LIB["property"] = lib_property
+
+
+class LazyPropV(PropertyV):
+    """lazy_property.LazyProperty(f) built by a call (not used as a decorator): the value is cached on the instance under '_' + f.__name__ (installed source of
+    lazy_property) - two such properties made from lambdas share the slot '_<lambda>'"""
+
+    def __init__(self, fget, slot):
+        super().__init__(fget)
+        self.slot = slot
+
+
+def lib_lazy_property(ev, a, k, n, mod):
+    fget = a[0]
+    if len(a) != 1 or k:
+        raise ev.err("LazyProperty() with other than one function", n, mod)
+    if isinstance(fget, LambdaV):
+        name = "<lambda>"
+    elif isinstance(fget, FuncV):
+        name = fget.ref.split(".")[-1].split(":")[-1]
+    else:
+        raise ev.err("LazyProperty() of something that is not a function", n, mod)
+    return LazyPropV(fget, "_" + name)
+
+
+lib_lazy_property.kw = set()
+LIB["lazy_property.LazyProperty"] = lib_lazy_property
+LIB["functools.cached_property"] = lib_property            # cached per attribute name (__set_name__): a property whose value does not change
 LIB["staticmethod"] = lambda ev, a, k, n, mod: StaticV(a[0])
 
 
